@@ -44,7 +44,7 @@ def entries():
 
     def add(name, arity, fn, *tags, **kw):
         E.append(dict(name=name, arity=arity, fn=fn, tags=set(tags), slack=kw.get('slack', 2), fan=kw.get('fan', 1),
-                      need=kw.get('need'), skip_empty=kw.get('skip_empty', False)))
+                      need=kw.get('need'), skip_empty=kw.get('skip_empty', False), kmax=kw.get('kmax', 6)))
 
     S, B, K, H = 'stream', 'block', 'sorted', 'hdr1'
     # --- basics
@@ -55,7 +55,7 @@ def entries():
     add('cat', 2, lambda a, b: etl.cat(a, b), S)
     add('cat(header)', 2, lambda a, b: etl.cat(a, b, header=['k', 'm', 'z']), S)
     add('stack', 2, lambda a, b: etl.stack(a, b), S)
-    add('annex', 2, lambda a, b: etl.annex(a, b), S)
+    add('annex', 2, lambda a, b: etl.annex(a, b), S, need=lambda k: 2 * k)     # k rows from each source
     add('addfield', 1, lambda a, b: etl.addfield(a, 'z', lambda r: r['n'] * 2), S)
     add('addfield(const,index)', 1, lambda a, b: etl.addfield(a, 'z', 7, index=1), S)
     add('addfields', 1, lambda a, b: etl.addfields(a, [('y', 1), ('z', lambda r: r.n, 0)]), S)
@@ -150,7 +150,8 @@ def entries():
     add('crossjoin', 2, lambda a, b: etl.crossjoin(a, b), B)
     add('unjoin', 1, lambda a, b: etl.unjoin(a, 'n', key='k')[0], B, K)
     for f in ('hashjoin', 'hashleftjoin', 'hashlookupjoin', 'hashantijoin'):
-        add(f, 2, (lambda f: lambda a, b: getattr(etl, f)(a, b, key='k'))(f), S, 'probe-left')
+        add(f, 2, (lambda f: lambda a, b: getattr(etl, f)(a, b, key='k'))(f), S, 'probe-left',
+            need=(lambda k: k + 5) if f == 'hashantijoin' else None)       # first unmatched probe row is row 4, then 7, 8, 9...
     add('hashrightjoin', 2, lambda a, b: etl.hashrightjoin(a, b, key='k'), S, 'probe-right')
     add('hashjoin(nocache)', 2, lambda a, b: etl.hashjoin(a, b, key='k', cache=False), S, 'probe-left')
     # --- setops
@@ -158,8 +159,8 @@ def entries():
     add('intersection', 2, lambda a, b: etl.intersection(etl.cut(a, 'k'), etl.cut(b, 'k')), B, K)
     add('recordcomplement', 2, lambda a, b: etl.recordcomplement(etl.cut(a, 'k'), etl.cut(b, 'k')), B, K, H)
     add('diff', 2, lambda a, b: etl.diff(etl.cut(a, 'k'), etl.cut(b, 'k'))[0], B, K)
-    add('hashcomplement', 2, lambda a, b: etl.hashcomplement(etl.cut(a, 'k'), etl.cut(b, 'k')), S, 'probe-left')
-    add('hashintersection', 2, lambda a, b: etl.hashintersection(etl.cut(a, 'k'), etl.cut(b, 'k')), S, 'probe-left', need=lambda k: 8 * k)
+    add('hashcomplement', 2, lambda a, b: etl.hashcomplement(etl.cut(a, 'k'), etl.cut(b, 'k')), S, 'probe-left', need=lambda k: k + 5)
+    add('hashintersection', 2, lambda a, b: etl.hashintersection(etl.cut(a, 'k'), etl.cut(b, 'k')), S, 'probe-left', need=lambda k: k + 2, kmax=5)   # only 5 probe rows have a partner
     # --- dedup
     for f in ('duplicates', 'unique', 'distinct'):
         add(f, 1, (lambda f: lambda a, b: getattr(etl, f)(a, 'k'))(f), B, K)
